@@ -245,6 +245,27 @@ def _split(total, rng):
     return [total]
 
 
+def wrapper_graphs(rng, n):
+    """graphs that only pass their inputs on to one backend function - in order, swapped, repeated, or a subset - with inputs of equal
+    or different shapes: the optimiser may replace such a graph by the bare function only when that changes nothing"""
+    import einx._src.tracer as tracer
+    np_ = tracer.signature.numpy()
+    T = tracer.signature.classical.Tensor
+    out = []
+    for _ in range(n):
+        k = rng.randint(2, 3)
+        same = rng.random() < 0.7
+        shapes = [(2, 3)] * k if same else [rng.choice([(2, 3), (3,), (1, 3)]) for _ in range(k)]
+        ins = [T(None, shape=sh) for sh in shapes]
+        how = rng.choice(["in_order", "swapped", "repeated", "rotated"])
+        idx = {"in_order": [0, 1], "swapped": [1, 0], "repeated": [0, 0], "rotated": [k - 1, 0]}[how]
+        f = rng.choice(["subtract", "add", "multiply", "maximum"])
+        y = getattr(np_, f)(ins[idx[0]], ins[idx[1]])
+        data = [np.arange(int(np.prod(sh)), dtype=np.int64).reshape(sh) * (j + 2) + j for j, sh in enumerate(shapes)]
+        out.append((tracer.Graph(inputs=ins, output=y, name="op"), data, {"wrapper": how, "function": f, "shapes": [list(sh) for sh in shapes]}))
+    return out
+
+
 def perm_pairs(max_rank):
     """every pair of permutations up to the rank bound (the quantifier named in the property)"""
     import einx._src.tracer as tracer
@@ -275,7 +296,7 @@ def run(ctx):
     quick = ctx.tier == "quick"
     cases = [gencalls.gen_call(ctx.rng) for _ in range(200 if quick else 5000)]
     real = common.pmap(_work_real, cases)
-    syn_items = synthetic(ctx.rng, 600 if quick else 10000) + perm_pairs(4 if quick else 5)
+    syn_items = synthetic(ctx.rng, 600 if quick else 10000) + perm_pairs(4 if quick else 5) + wrapper_graphs(ctx.rng, 60 if quick else 1500)
     syn = common.pmap(_work_syn, syn_items)
     adp = common.pmap(_work_adapt, adapter_cases(ctx.rng, 60 if quick else 1500))
     items = [it for its in real + syn + adp for it in its]
